@@ -681,7 +681,29 @@ func ruleIMM3(c *Ctx) []Ob {
 		for _, og := range origins(v) {
 			switch x := og.(type) {
 			case *ssa.Parameter:
-				return true
+				// the entry point's parameter is the caller's value; a helper's parameter is input only
+				// if some call site hands it (part of) its own input - an accumulator made by the
+				// caller (m := make(map...); fill(m, ...)) is not
+				g := x.Parent()
+				sites := c.staticCallers(g)
+				if g == norm || g.Parent() != nil || len(sites) == 0 || g.Object() == nil || g.Object().Exported() {
+					return true
+				}
+				idx := -1
+				for i, p := range g.Params {
+					if p == x {
+						idx = i
+					}
+				}
+				for _, cs := range sites {
+					args := cs.Common().Args
+					if idx < 0 || idx >= len(args) || !c.IsLib(cs.Parent()) {
+						return true
+					}
+					if fromInput(args[idx], depth+1, seen) {
+						return true
+					}
+				}
 			case *ssa.TypeAssert:
 				if fromInput(x.X, depth+1, seen) {
 					return true
@@ -700,6 +722,22 @@ func ruleIMM3(c *Ctx) []Ob {
 					// Interface(), Index(i), Elem(), MapIndex(k), Field(i): views of the receiver
 					if len(x.Common().Args) > 0 && fromInput(x.Common().Args[0], depth+1, seen) {
 						return true
+					}
+				} else if g := staticCallee(x); g != nil && (c.IsLib(c.declared(g)) || full == "reflect.ValueOf" || full == "reflect.Indirect") {
+					// a helper handing back a reflect.Value made from its argument: still a view of it
+					hasRV := false
+					res := g.Signature.Results()
+					for i := 0; i < res.Len(); i++ {
+						if namedIs(res.At(i).Type(), "reflect", "Value") {
+							hasRV = true
+						}
+					}
+					if hasRV {
+						for _, a := range x.Common().Args {
+							if fromInput(a, depth+1, seen) {
+								return true
+							}
+						}
 					}
 				}
 			case *ssa.UnOp:
@@ -749,6 +787,63 @@ func ruleIMM3(c *Ctx) []Ob {
 	}
 	if n == 0 {
 		o.add(UNDECIDED, "Normalize", "-", "nothing reachable from Normalize")
+	}
+	return o.list
+}
+
+// ---------------------------------------------------------------- ALIAS2
+
+// ALIAS2: a predicate supplied by the caller (query.MatchFunc) is applied to a
+// copy of the document under test, never to the object the operation goes on to
+// use. The bulk operations take the key, the id and the values of the index
+// entries to remove from that object after the filter ran: a predicate that
+// normalises a field in place (lower-casing a name, rewriting _id) would make
+// Update store the document under another document's key, or Delete leave the
+// index entries of the original value behind.
+func ruleALIAS2(c *Ctx) []Ob {
+	o := newObs(c, "ALIAS2")
+	copyM := c.lookupMethod("document", "Document", "Copy")
+	n := 0
+	for _, fn := range c.LibFuncs {
+		if c.pkgRel(fn) != "query" {
+			continue
+		}
+		k := 0
+		allCalls(fn, func(ci ssa.CallInstruction) {
+			cc := ci.Common()
+			if cc.IsInvoke() || cc.StaticCallee() != nil {
+				return
+			}
+			if _, isBuiltin := cc.Value.(*ssa.Builtin); isBuiltin {
+				return
+			}
+			for _, a := range cc.Args {
+				if !c.libNamedIs(a.Type(), "document", "Document") {
+					continue
+				}
+				n++
+				k++
+				key := fmt.Sprintf("%s/caller's predicate receives a copy", c.fname(fn))
+				if k > 1 {
+					key += fmt.Sprintf(" #%d", k)
+				}
+				fresh := len(origins(a)) > 0
+				for _, og := range origins(a) {
+					call, ok := og.(*ssa.Call)
+					if !ok || copyM == nil || staticCallee(call) == nil || c.declared(staticCallee(call)) != copyM {
+						fresh = false
+					}
+				}
+				if fresh {
+					o.add(OK, key, relPath(c, ci.Pos()), "the function value taken from the criteria is called with Document.Copy() of the document under test")
+				} else {
+					o.add(VIOLATED, key, relPath(c, ci.Pos()), "a function supplied by the caller is handed the very document object that the plan passes on: Update/Delete take the record key, the id and the index values to remove from that object afterwards, so a predicate that modifies its argument (doc.Set(\"_id\", other); return true) makes Update overwrite another document, and Delete leaves the original value's index entries behind")
+				}
+			}
+		})
+	}
+	if n == 0 {
+		o.add(INFO, "predicates", "-", "package query calls no caller-supplied function with a document")
 	}
 	return o.list
 }
